@@ -33,10 +33,63 @@ Definition char_write_value (x : exchange) : res errclass bytes :=
     | OutOfFuel => OutOfFuel
     end.
 
-(* _pairing_char_write: [max] = MAX_REASSEMBLY (50); an exhausted script is not a library path (Crash) *)
-Fixpoint pairing_char_write (max : nat) (xs : list exchange) (buffer : bytes) : res errclass (list item) :=
+(* _pairing_char_write: [max] = MAX_REASSEMBLY (50); an exhausted script is not a library path (Crash).
+   Model of the REPAIRED code (fixes/C04-ble-fragment-siblings.patch): the items that a payload carries next to its
+   FragmentData (12) / FragmentLast (13) item are kept ([siblings], in arrival order) and the reassembled items are
+   appended to them - dict(siblings + decode(buffer)), so on a duplicate type the reassembled value wins, exactly as
+   a later duplicate wins inside one reply; a payload without fragment item ends the exchange and whatever was
+   buffered before is decoded as well. *)
+Definition is_fragment_type (k : N) : bool := N.eqb k 12 || N.eqb k 13.
+Definition non_fragment (items : list item) : list item :=
+  filter (fun kv => negb (is_fragment_type (fst kv))) items.
+
+Definition finish_exchange (siblings : list item) (buffer : bytes) : res errclass (list item) :=
+  match lift_dec (tlv_decode buffer) with
+  | Ok r => Ok (siblings ++ r)
+  | Err e => Err e
+  | Crash => Crash
+  | OutOfFuel => OutOfFuel
+  end.
+
+Fixpoint pairing_char_write (max : nat) (xs : list exchange) (buffer : bytes) (siblings : list item)
+  : res errclass (list item) :=
   match max with
   | O => Crash                                            (* ValueError: too many fragments *)
+  | S m =>
+      match xs with
+      | [] => Crash
+      | x :: rest =>
+          match char_write_value x with
+          | Ok data =>
+              match lift_dec (tlv_decode data) with
+              | Ok items =>
+                  let siblings' := siblings ++ non_fragment items in
+                  match lookup 13 items with
+                  | Some last => finish_exchange siblings' (buffer ++ last)
+                  | None =>
+                      match lookup 12 items with
+                      | Some part => pairing_char_write m rest (buffer ++ part) siblings'
+                      | None => finish_exchange siblings' buffer
+                      end
+                  end
+              | Err e => Err e
+              | Crash => Crash
+              | OutOfFuel => OutOfFuel
+              end
+          | Err e => Err e
+          | Crash => Crash
+          | OutOfFuel => OutOfFuel
+          end
+      end
+  end.
+
+Definition ble_exchange (xs : list exchange) : res errclass (list item) := pairing_char_write 50 xs [] [].
+
+(* the unrepaired loop, kept only for the defect witness: siblings of a fragment item are dropped, a payload
+   without fragment item is returned alone *)
+Fixpoint pairing_char_write_unrepaired (max : nat) (xs : list exchange) (buffer : bytes) : res errclass (list item) :=
+  match max with
+  | O => Crash
   | S m =>
       match xs with
       | [] => Crash
@@ -49,7 +102,7 @@ Fixpoint pairing_char_write (max : nat) (xs : list exchange) (buffer : bytes) : 
                   | Some last => lift_dec (tlv_decode (buffer ++ last))
                   | None =>
                       match lookup 12 items with
-                      | Some part => pairing_char_write m rest (buffer ++ part)
+                      | Some part => pairing_char_write_unrepaired m rest (buffer ++ part)
                       | None => Ok items
                       end
                   end
@@ -64,7 +117,29 @@ Fixpoint pairing_char_write (max : nat) (xs : list exchange) (buffer : bytes) : 
       end
   end.
 
-Definition ble_exchange (xs : list exchange) : res errclass (list item) := pairing_char_write 50 xs [].
+(* all items the accessory sent next to fragment items in the payloads the loop consumes *)
+Fixpoint ble_siblings (max : nat) (xs : list exchange) : list item :=
+  match max with
+  | O => []
+  | S m =>
+      match xs with
+      | [] => []
+      | x :: rest =>
+          match char_write_value x with
+          | Ok data =>
+              match lift_dec (tlv_decode data) with
+              | Ok items =>
+                  non_fragment items ++
+                  match lookup 13 items with
+                  | Some _ => []
+                  | None => match lookup 12 items with Some _ => ble_siblings m rest | None => [] end
+                  end
+              | _ => []
+              end
+          | _ => []
+          end
+      end
+  end.
 
 (* one step of a pairing generator behind drive_pairing_state_machine *)
 Definition step_ble (s : step) (o : oracles) (xs : list exchange) : outcome :=
